@@ -45,7 +45,7 @@ CHECKS = {
    note="serde_json (encode) and simd-json (decode) are used exactly as the tracker and client do."),
  "C02": dict(level="exploration", engine="enum", ref="§3 C02",
    technique="exhaustive enumeration of swarm sizes x limits x requested counts x requester positions x every outcome of the two random offsets (scripted RNG / seed sweep with measured full coverage) through the real selection code",
-   text="For n = 0..=40 (thorough 64) stored peers, 13 configured maxima, negative / zero / small / boundary / huge requested counts, requester absent and at first / middle-1 / middle / last position, insertion order and removal-permuted order, both families: UDP TorrentMaps::announce, HTTP handle_announce_request and WS extract_response_peers are called for every (offset_one, offset_two) outcome and the returned list is checked to be distinct, members only, requester-free, within the limit, complete when the torrent is small and at least limit-1 (WS: exactly limit) otherwise.",
+   text="For n = 0..=64 (thorough 128) stored peers, 13 configured maxima, negative / zero / small / boundary / huge requested counts, requester absent and at first / middle-1 / middle / last position, insertion order and removal-permuted order, both families: UDP TorrentMaps::announce, HTTP handle_announce_request and WS extract_response_peers are called for every (offset_one, offset_two) outcome and the returned list is checked to be distinct, members only, requester-free, within the limit, complete when the torrent is small and at least limit-1 (WS: exactly limit) otherwise.",
    note="n > 64 not explored; requester-present cases use boundary offsets (selection runs after the requester's removal); HTTP/WS use a scripted generator calibrated against the real sampling, UDP a seed sweep whose pair coverage is measured (incomplete coverage = exit 2)."),
  "C12": dict(level="exploration", engine="enum", ref="§3 C12",
    technique="exhaustive enumeration of all byte strings up to length 2-3 and of the complete single-step mutation space of a corpus of valid messages through the real parsers and handlers, in a child process with tracker-sized stacks and a counting allocator",
